@@ -434,6 +434,55 @@ pub fn surgery<S: Surgery + UniSch>(rec: &mut Rec) {
     }
 }
 
+/// Mislabelled commitments inside a GROUP opened at one point: two bounded polynomials, the first or
+/// the second one shown under another served bound than it was made under, for every triple of served
+/// bounds, with and without hiding.  (A verifier that resolves shift elements per group, not per
+/// commitment, is only visible here.)
+pub fn mislabel_group<S: RefOps + UniSch>(rec: &mut Rec) {
+    let (cfg, served): (KeyCfg, Vec<usize>) = if S::NAME == "IPA" { (KeyCfg::uni(7, 7, 1, None), vec![2, 4, 6]) } else { (KeyCfg::uni(7, 6, 1, Some(vec![2, 4, 6])), vec![2, 4, 6]) };
+    let keys = match build_keys::<S>(&cfg, rec.seed) {
+        Ok(k) => k,
+        Err(_) => return,
+    };
+    let r = rho_stream::<S::F>(rec.seed, 33, 8);
+    let z = pt::<S>(rho::<S::F>(rec.seed, 7));
+    for b1 in served.iter().copied() {
+        for b2 in served.iter().copied() {
+            for b3 in served.iter().copied() {
+                if b3 == b2 {
+                    continue;
+                }
+                for h in [None, Some(1usize)] {
+                    for pos in [0usize, 1] {
+                        let id = format!("{}/mislabel-group/{}/other={}/made={}/shown={}/h={:?}/position={}", S::NAME, cfg.id(), b1, b2, b3, h, pos);
+                        if !rec.take(&id) {
+                            continue;
+                        }
+                        rec.dim("scheme", S::NAME);
+                        // "x" sorts after "a": position 0 mislabels the first polynomial of the group, 1 the second
+                        let (l_other, l_bad) = if pos == 1 { ("a", "x") } else { ("x", "a") };
+                        let other = lp::<S>(l_other, uni_poly::<S>(&r[..2]), Some(b1), h);
+                        let bad = lp::<S>(l_bad, uni_poly::<S>(&r[2..5]), Some(b2), h);
+                        let polys = if pos == 1 { vec![other, bad] } else { vec![bad, other] };
+                        let c = match commit_set::<S>(&keys, polys, rec.seed, 0) {
+                            Ok(c) => c,
+                            Err(_) => continue,
+                        };
+                        let s1 = match open_single::<S>(&keys, &c, &[0, 1], &z, 0, rec.seed, 0) {
+                            Ok(s) => s,
+                            Err(_) => continue,
+                        };
+                        rec.op(2);
+                        let shown = LabeledCommitment::new(c.comms[pos].label().clone(), c.comms[pos].commitment().clone(), Some(b3));
+                        let cs: Vec<&LCm<S>> = if pos == 1 { vec![&c.comms[0], &shown] } else { vec![&shown, &c.comms[1]] };
+                        run_pair::<S>(rec, &id, "mislabel-in-group", &keys, &cs, &z, &s1.values, &s1.proof, &|| false, &format!("group of two bounded commitments at one point: the {} one, made under bound {}, shown under bound {} (the other one honest under {})", if pos == 0 { "first" } else { "second" }, b2, b3, b1));
+                    }
+                }
+            }
+        }
+    }
+}
+
 pub fn run(rec: &mut Rec) {
     let dmax = if rec.thorough() { 6 } else { 4 };
     admission::<SMar>(rec, dmax);
@@ -442,6 +491,9 @@ pub fn run(rec: &mut Rec) {
     mislabel::<SMar>(rec, dmax);
     mislabel::<SSon>(rec, dmax);
     mislabel::<SIpa>(rec, dmax);
+    mislabel_group::<SMar>(rec);
+    mislabel_group::<SSon>(rec);
+    mislabel_group::<SIpa>(rec);
     surgery::<SMar>(rec);
     surgery::<SSon>(rec);
     surgery::<SIpa>(rec);
